@@ -121,7 +121,16 @@ def run_case(case):
     hclass = 'unique'
     dedup_fmt = None
     if fam == 'dup_headers' and ncols >= 2:
-        hclass = rng.choice(['exact', 'case', 'triple', 'many', 'two_groups', 'collides_generated'])
+        hclass = rng.choice(['exact', 'case', 'triple', 'many', 'two_groups', 'collides_generated', 'case_collides_generated'])
+        force_ci = False
+        if hclass == 'case_collides_generated' and ncols >= 3:
+            # headers that differ in case only, next to a unique header that looks like the name generated for one of them
+            dedup_fmt = rng.choice([' (%s)', '_%s'])
+            header[0], header[1] = 'Name', 'name'
+            header[2] = 'Name' + dedup_fmt % 1
+            force_ci = True
+        elif hclass == 'case_collides_generated':
+            hclass = 'exact'
         if hclass == 'collides_generated' and ncols >= 3:
             # a unique header that already looks like a name de-duplication would generate
             dedup_fmt = rng.choice([' (%s)', ' (%s)', '_%s'])
@@ -135,7 +144,7 @@ def run_case(case):
             header = [header[0], header[1]] * (ncols // 2) + ([header[2]] if ncols % 2 else [])
         elif hclass in ('many', 'two_groups'):
             hclass = 'exact'
-        if hclass == 'collides_generated':
+        if hclass in ('collides_generated', 'case_collides_generated'):
             pass
         elif hclass == 'exact':
             header[1] = header[0]
@@ -212,9 +221,15 @@ def run_case(case):
                   cast_strategy=d.load.CAST_TO_STRINGS)
     elif fam == 'cast_schema':
         policy = rng.choice(['raise', 'drop', 'ignore', 'clear'])
+        on_error_ = {'raise': d.load.ERRORS_RAISE, 'drop': d.load.ERRORS_DROP,
+                     'ignore': d.load.ERRORS_IGNORE, 'clear': d.load.ERRORS_CLEAR}[policy]
+        if policy == 'drop' and boot.rng(case['seed'], 'C13', 'handler', case['idx']).random() < 0.5:
+            # the caller's own handler in the documented 4-argument form that also accepts further context
+            def on_error_(res_name, row, index, error, **context):      # noqa: F811
+                return False
+            cov['options']['on_error/own_handler_with_varkw'] = 1
         kw.update(infer_strategy=d.load.INFER_FULL, cast_strategy=d.load.CAST_WITH_SCHEMA,
-                  on_error={'raise': d.load.ERRORS_RAISE, 'drop': d.load.ERRORS_DROP,
-                            'ignore': d.load.ERRORS_IGNORE, 'clear': d.load.ERRORS_CLEAR}[policy],
+                  on_error=on_error_,
                   sample_size=sample_size)
     elif fam == 'pytypes':
         kw.update(infer_strategy=d.load.INFER_PYTHON_TYPES, cast_strategy=d.load.CAST_DO_NOTHING)
@@ -223,6 +238,9 @@ def run_case(case):
         if rng.random() < 0.7:
             kw['deduplicate_headers'] = True
         if rng.random() < 0.5:
+            kw['deduplicate_headers_case_sensitive'] = False
+        if hclass == 'case_collides_generated':
+            kw['deduplicate_headers'] = True
             kw['deduplicate_headers_case_sensitive'] = False
         if dedup_fmt not in (None, ' (%s)'):
             kw['deduplicate_headers_format'] = dedup_fmt
